@@ -28,6 +28,12 @@ def treeval(v):
         return "VNone"
     if isinstance(v, int) and not isinstance(v, bool):
         return {"VInt": [v]}
+    if type(v) is tuple:
+        return {"VTuple": [[treeval(x) for x in v]]}
+    if type(v) is list:
+        return {"VList": [[treeval(x) for x in v]]}
+    if type(v) is dict:
+        return {"VDict": [[{"": [k, treeval(x)]} for k, x in v.items()]]}
     return {"VOther": [{"s": repr(v)[:60]}]}
 
 
@@ -108,6 +114,23 @@ def make_future(kind, tres, ctx):
     return aw.asynq()
 
 
+def make_awaitable(w, ctx):
+    """What a body hands to `yield` when it is not a Value: None, a future, a tuple / list / dict of those."""
+    if w == "WNone":
+        return None
+    (k, a), = w.items()
+    if k == "WFut":
+        (ok, pa), = a[1].items()
+        return make_future(a[0], {"TVal": pa} if ok == "Ok" else {"TErr": pa}, ctx)
+    if k == "WTuple":
+        return tuple(make_awaitable(x, ctx) for x in a[0])
+    if k == "WList":
+        return [make_awaitable(x, ctx) for x in a[0]]
+    if k == "WDict":
+        return {kv[""][0]: make_awaitable(kv[""][1], ctx) for kv in a[0]}
+    raise ValueError(k)
+
+
 def make_agen(steps, top_ctx=None):
     """An @async_generator() built from the step tree; nested trees iterate the inner generator the
     way the documentation of async_generator prescribes."""
@@ -118,6 +141,8 @@ def make_agen(steps, top_ctx=None):
             (k, a), = st.items()
             if k == "NAwait":
                 yield make_future(a[0], a[1], ctx)
+            elif k == "NYield":
+                yield make_awaitable(a[0], ctx)        # None: the same as a bare `yield`
             elif k == "NValue":
                 yield Value(pyval(a[0]))
             elif k == "NRaise":
